@@ -392,15 +392,48 @@ class _Bail(Exception):
     pass
 
 
+class _HigherOrder(ast.NodeTransformer):
+    """filter(h, it) / itertools.filterfalse(h, it) / map(h, it) with h a new helper: the generator expression they stand for, so
+    that h is called by name where the rules (and the helper inlining) can see it"""
+
+    def __init__(self, new_names: set[str]):
+        self.new_names = new_names
+        self.count = 0
+        self.k = 0
+
+    def visit_Call(self, n: ast.Call):  # noqa: N802
+        self.generic_visit(n)
+        fn = n.func.id if isinstance(n.func, ast.Name) else (n.func.attr if isinstance(n.func, ast.Attribute) and isinstance(n.func.value, ast.Name) and n.func.value.id == "itertools" else None)
+        if fn not in ("filter", "filterfalse", "map") or len(n.args) != 2 or n.keywords or any(isinstance(a, ast.Starred) for a in n.args):
+            return n
+        h = n.args[0]
+        hn = h.id if isinstance(h, ast.Name) else (h.attr if isinstance(h, ast.Attribute) and isinstance(h.value, ast.Name) and h.value.id in ("self", "cls") else None)
+        if hn is None or hn not in self.new_names:
+            return n
+        self.k += 1
+        var = f"_item{self.k}"
+        call = ast.Call(func=h, args=[ast.Name(id=var, ctx=ast.Load())], keywords=[])
+        if fn == "map":
+            elt, ifs = call, []
+        else:
+            elt = ast.Name(id=var, ctx=ast.Load())
+            ifs = [call if fn == "filter" else ast.UnaryOp(op=ast.Not(), operand=call)]
+        g = ast.GeneratorExp(elt=elt, generators=[ast.comprehension(target=ast.Name(id=var, ctx=ast.Store()), iter=n.args[1], ifs=ifs, is_async=0)])
+        self.count += 1
+        return ast.fix_missing_locations(ast.copy_location(g, n))
+
+
 def desugar_dispatch(tree: ast.Module, new_names: set[str]) -> int:
     """rewrite, in place, every call through a new constant helper table; returns the number of rewritten sites"""
+    ho = _HigherOrder(new_names)
+    ho.visit(tree)
     for parent in ast.walk(tree):
         for child in ast.iter_child_nodes(parent):
             child._parent = parent  # type: ignore[attr-defined]
     tables = _collect_tables(tree, new_names)
     if not tables:
-        return 0
-    counter = [0]
+        return ho.count
+    counter = [ho.count]
 
     def visit(body: list[ast.stmt], cls: str | None) -> None:
         for st in body:
